@@ -26,7 +26,7 @@ func init() {
 		Rule: "families: T = all 132,000 strings <?D{1,2}:DD(am|pm)?>? ; R = all 4320 shifted times x {24h,12h} round trip and equivalence; " +
 			"P = all 4320x4320 ordered time pairs (range validity, duration, ordering); A = all 4320 times x all d in [-2880,2880] (Plus); " +
 			"D = all strings YYYYsMMtDD with s,t in {-,/}, MM 00-13, DD 00-32, all years; U = all duration strings sign{,+,-} x h 0-120 x m 0-130 x {NhMm,Nh,Mm} " +
-			"plus malformed near-misses. One case = one string / pair / (time,delta); all are distinct by construction and hashed by their text.",
+			"plus malformed near-misses; G = range and open-range LITERALS through the parser: 12 x 12 boundary times (and every placeholder ?, ??, ???) x 14 separators (dense, spaced, several spaces, one-sided, tabs on either side, en dash, doubled dash, missing). One case = one string / pair / (time,delta); all are distinct by construction and hashed by their text.",
 		Assumptions: []string{
 			"specmodel value grammar (ParseTime/ParseDate/ParseDuration written from Specification.md §I)",
 			"spec erratum: the example `<23:00am` contradicts the normative 12-hour rule (hour 1-12); the rule wins",
@@ -57,6 +57,7 @@ func c16Unit(c *fw.Ctx, unit int) {
 		c16Dates(c, unit-1-2*c16PairChunks)
 	default:
 		c16Durations(c)
+		c16RangeLiterals(c)
 	}
 }
 
@@ -91,6 +92,8 @@ func c16Replay(c *fw.Ctx, raw json.RawMessage) {
 		c16DateString(c, cs.A)
 	case "U":
 		c16DurationString(c, cs.A)
+	case "G":
+		c16RangeLiteral(c, cs.A)
 	}
 }
 
@@ -476,5 +479,55 @@ func c16DurationString(c *fw.Ctx, s string) {
 		}
 	default:
 		c.Outcome("duration-rejected")
+	}
+}
+
+
+// ---- G: range literals as the parser reads them (what may stand around the dash)
+
+var c16RangeTimes = []string{"<23:00", "<24:00", "0:00", "8:00", "08:00", "11:59am", "12:00pm", "12:30pm", "23:59", "24:00", "0:30>", "23:59>"}
+var c16RangeSeps = []string{"-", " - ", "  -  ", " -", "- ", "   -", "-\t", "\t-", " -\t", "\t-\t", " \t- ", " \u2013 ", " -- ", " "}
+
+func c16RangeLiterals(c *fw.Ctx) {
+	for _, a := range c16RangeTimes {
+		for _, sep := range c16RangeSeps {
+			for _, b := range c16RangeTimes {
+				c16RangeLiteral(c, a+sep+b)
+			}
+			for _, ph := range []string{"?", "??", "???", "?>", "<?"} {
+				c16RangeLiteral(c, a+sep+ph)
+			}
+		}
+	}
+}
+
+func c16RangeLiteral(c *fw.Ctx, lit string) {
+	cs := c16Case{Fam: "G", A: lit}
+	c.Eval(1)
+	c.NontrivialString("G" + lit)
+	text := "2020-01-01\n    " + lit + " summary\n"
+	ref := sm.Parse(text)
+	rs, _, errs, panicked, pv, st := klogParse(text)
+	if panicked {
+		c.Violation("panic:range-literal:"+fw.PanicSite(st), cs, fmt.Sprintf("parsing the entry %q panicked: %v\n%s", lit, pv, st))
+		return
+	}
+	switch ref.Verdict {
+	case sm.Unspec:
+		c.Outcome("range-literal-dont-care")
+	case sm.Invalid:
+		c.Outcome("range-literal-rejected")
+		if len(errs) == 0 {
+			c.Violation("range-literal-accepted", cs, fmt.Sprintf("%q is not a range, open range or duration followed by a summary (%s) but is accepted:\n%s", lit, ref.Rule, canonKlog(rs, nil)))
+		}
+	case sm.Valid:
+		c.Outcome("range-literal-accepted")
+		if len(errs) > 0 {
+			c.Violation("range-literal-rejected", cs, fmt.Sprintf("%q is a valid entry but is rejected: %s", lit, errSummary(errs)))
+			return
+		}
+		if got, want := canonKlog(rs, ref.Records), canonRef(ref.Records); got != want {
+			c.Violation("range-literal-denotation", cs, fmt.Sprintf("%q is read as\n%sbut denotes\n%s", lit, got, want))
+		}
 	}
 }
